@@ -164,6 +164,7 @@ func (r *c09Reader) Read(p []byte) (int, error) {
 		r.d.w.Stat(c09pIOErr)
 		r.err = io.ErrUnexpectedEOF
 		copy(p, r.data[:n])
+		r.gave = append(r.gave, r.data[:n]...)
 		return n, r.err
 	}
 	copy(p, r.data[:n])
@@ -219,6 +220,8 @@ type c09AsyncReader struct {
 	d    *c09
 	data []byte
 	err  error
+	// withData: the error comes together with bytes (an AsyncReadAll that made progress, a reader like tls.Conn)
+	withData bool
 }
 
 func (a *c09AsyncReader) AsyncRead(b []byte, cb sonic.AsyncCallback) {
@@ -230,13 +233,13 @@ func (a *c09AsyncReader) AsyncRead(b []byte, cb sonic.AsyncCallback) {
 		n = 1 + a.d.w.Choose(n-1)
 	}
 	do := func() {
-		if a.err != nil {
+		if a.err != nil && !a.withData {
 			cb(a.err, 0)
 			return
 		}
 		copy(b, a.data[:n])
 		a.data = a.data[:n]
-		cb(nil, n)
+		cb(a.err, n) // with an error: the bytes that arrived together with it
 	}
 	if a.d.w.Chance(1, 2) {
 		a.d.w.Stat(c09pDeferred)
@@ -517,18 +520,15 @@ func runC09(c *Ctx) {
 				if err != r.err {
 					c.Failf("readfrom-result", "%s returned err=%v, the reader returned %v", op, err, r.err)
 				}
-				if err == nil {
-					if int(n) != len(r.gave) {
-						c.Failf("readfrom-result", "%s returned n=%d, the reader delivered %d bytes", op, n, len(r.gave))
-					}
-					d.write = append(d.write, r.gave...)
+				// what the reader delivered was read, with or without an error behind it (io.Reader: callers
+				// process the n > 0 bytes before considering the error)
+				if int(n) != len(r.gave) {
+					c.Failf("readfrom-result", "%s returned n=%d, the reader delivered %d bytes", op, n, len(r.gave))
 				}
+				d.write = append(d.write, r.gave...)
 			} else {
 				ar := &c09AsyncReader{d: d, data: src}
-				if w.Chance(1, 5) {
-					ar.err = errors.New("async read error")
-				}
-				op = "AsyncReadFrom"
+
 				calls := 0
 				var gotN int
 				var gotErr error
@@ -540,7 +540,7 @@ func runC09(c *Ctx) {
 				if calls != 1 {
 					c.Failf("async-callback-count", "AsyncReadFrom invoked its callback %d times", calls)
 				}
-				if gotErr == nil {
+				if gotErr == nil || ar.withData {
 					d.write = append(d.write, ar.data[:gotN]...)
 				}
 			}
